@@ -609,8 +609,15 @@ fn integrand() -> BoxedStrategy<Integrand> {
     let poly = || (0usize..=6).prop_flat_map(|d| proptest::collection::vec(gen::fl(-1.0, 1.0), d + 1));
     let amp = || prop_oneof![2 => Just(0.0), 3 => gen::fl(-2.0, 2.0)];
     let rate = |m: f64| (gen::fl(0.05, m), gen::sign()).prop_map(|(v, s)| v * s);
-    (poly(), amp(), rate(1.5), amp(), rate(2.0), gen::fl(0.0, 6.28), prop_oneof![3 => Just(false), 1 => Just(true)], poly(), (amp(), amp()), rate(2.0))
-        .prop_map(|(poly, ea, a, sb, b, phi, complex, poly_im, cz, cb)| Integrand { poly, ea, a, sb, b, phi, complex, poly_im, cz, cb })
+    // overall magnitude: none, or 10^[-3, 1] on every amplitude (stopping heuristics that look at the logarithm of a
+    // level difference behave differently for small integrands)
+    let mag = prop_oneof![2 => Just(0.0), 2 => gen::fl(-3.0, 1.0)];
+    (poly(), amp(), rate(1.5), amp(), rate(2.0), gen::fl(0.0, 6.28), prop_oneof![3 => Just(false), 1 => Just(true)], poly(), (amp(), amp()), (rate(2.0), mag))
+        .prop_map(|(poly, ea, a, sb, b, phi, complex, poly_im, cz, (cb, mag))| {
+            let m = 10f64.powf(mag);
+            let sc = |v: Vec<f64>| -> Vec<f64> { v.into_iter().map(|x| x * m).collect() };
+            Integrand { poly: sc(poly), ea: ea * m, a, sb: sb * m, b, phi, complex, poly_im: sc(poly_im), cz: (cz.0 * m, cz.1 * m), cb }
+        })
         .boxed()
 }
 
@@ -661,7 +668,7 @@ pub fn run(opts: &Opts) -> i32 {
         ("complex", 0.1),
     ];
     spec.max_discard_frac = 0.2;
-    spec.rule = "generated: integrands P_d(x)+A e^{ax}+B sin(bx+phi) (d<=6, |a|<=1.5, |b|<=2; complex variant + i Q(x) + C e^{i b x}) on intervals of length 0.05..4 anywhere in [-5,5], tolerance log-uniform from max(1e-11, 1e4 eps (b-a) sum|terms|) to 1e-3 for tanh-sinh / Gauss-Legendre / adaptive Simpson; weighted rules on sum u_k x^k/sqrt(mu0 m_2k) + C cos(bx) (degree <= 12 Hermite, 19 Laguerre, 30 Chebyshev; |b|<=1, 0.5 for Laguerre) against exact moments and closed forms; Romberg n=1..10 on polynomials of degree <= 2n-1; batches of 20/40 Simpson integrals for the work bound; invalid class (reversed/empty interval, negative tolerance) for all eight routines. A case is admitted only if the harness's simulation of the documented stopping rule on independently computed nodes decides every step with a factor-1.5 margin and is itself within tol/2 of the closed-form integral; non-admitted cases are counted as discards (< 20%). Oracle: Ok required; |v-I| <= 2 tol + 64 eps (b-a) sum|terms| (tanh-sinh below 1e-8: 4 sqrt(tol); Simpson: tol on polynomials of degree <= 5 (no accuracy claim on the smooth family), evaluation count <= 8x reference + 32 per case and <= 2x per batch; Romberg: 2048 eps (b-a) sum|c_k||x|^k). Non-trivial = non-polynomial, degree >= 4, complex or interval not containing 0; weighted: non-polynomial or >= 5 coefficients or complex; batches; invalid. Distinct = distinct case JSON.".into();
+    spec.rule = "generated: integrands P_d(x)+A e^{ax}+B sin(bx+phi) (d<=6, |a|<=1.5, |b|<=2; complex variant + i Q(x) + C e^{i b x}; coefficients in [-1,1], amplitudes in [-2,2], all optionally times a common magnitude 10^[-3,1]) on intervals of length 0.05..4 anywhere in [-5,5], tolerance log-uniform from max(1e-11, 1e4 eps (b-a) sum|terms|) to 1e-3 for tanh-sinh / Gauss-Legendre / adaptive Simpson; weighted rules on sum u_k x^k/sqrt(mu0 m_2k) + C cos(bx) (degree <= 12 Hermite, 19 Laguerre, 30 Chebyshev; |b|<=1, 0.5 for Laguerre) against exact moments and closed forms; Romberg n=1..10 on polynomials of degree <= 2n-1; batches of 20/40 Simpson integrals for the work bound; invalid class (reversed/empty interval, negative tolerance) for all eight routines. A case is admitted only if the harness's simulation of the documented stopping rule on independently computed nodes decides every step with a factor-1.5 margin and is itself within tol/2 of the closed-form integral; non-admitted cases are counted as discards (< 20%). Oracle: Ok required; |v-I| <= 2 tol + 64 eps (b-a) sum|terms| (tanh-sinh below 1e-8: 4 sqrt(tol); Simpson: tol on polynomials of degree <= 5 (no accuracy claim on the smooth family), evaluation count <= 8x reference + 32 per case and <= 2x per batch; Romberg: 2048 eps (b-a) sum|c_k||x|^k). Non-trivial = non-polynomial, degree >= 4, complex or interval not containing 0; weighted: non-polynomial or >= 5 coefficients or complex; batches; invalid. Distinct = distinct case JSON.".into();
     spec.assumptions = vec!["closed-form integrals evaluated by Taylor shift / expm1 / product formulas (error << floor)".into(), "independent Gauss rules by Golub-Welsch (refs::quad), validated against the tables by C10".into()];
     spec.max_shrink_iters = 1500;
     run_spec(spec, opts)
